@@ -29,15 +29,18 @@ MANIFEST = {
              "(_get_date_positions, _create_expanded_data, set_data with the variant broadcast rule, get_data, get_data_from_until, "
              "shift, clip, overlay/underlay, _binop over the encompassing span, apply, trim), for all series, dates, variants and values, "
              "no bound: the model refines the map abs : (serial, variant) -> value -- a write changes exactly the addressed cells (last "
-             "write wins), a read returns abs, shift moves abs by exactly k, NaN-strict binary operators act pointwise on abs after "
+             "write wins) and rejects what the code rejects, a read returns abs for every variant request the code accepts (negative indices, "
+             "slices) and rejects out-of-range indices, x[dates] = y with relative dates is proved end to end (dates resolved against the "
+             "receiver, values read from the source period by period), shift moves abs by exactly k, NaN-strict binary operators act pointwise on abs after "
              "alignment including numpy's 1-vs-n variant broadcasting, clip/slices/element-wise apply/replace_where are one equation on abs each, "
-             "overlay/underlay by span (also 1-vs-n variants), hstack of two series (variant v < nv1 reads self, else other at v-nv1), row "
+             "overlay/underlay by span (also 1-vs-n variants), hstack of TWO series only (variant v < nv1 reads self, else other at v-nv1; three or more: well-formedness only), row "
              "statistics (the function's fold over the variants of each period, NaN rules stated), moving windows (the missing-strict "
              "function of the window abs(t-|w|+1..t)), fill_missing (observed cells kept, a missing cell gets the method's value from the "
              "closest observed neighbours in the span: constant/next/previous/nearest/linear spelled out on periods) and extrapolate (the "
              "AR recursion cell by cell with the lags in the documented order, history untouched) are proved on abs as well; "
              "writes of columns, fill_missing and extrapolate are also proved for arbitrary lists of distinct periods (stepped, backward, "
-             "unordered; repetitions: last write wins); cells are Option Num (finite rational | +inf | -inf): only NaN is missing, IEEE corner cases "
+             "unordered; repetitions: last write wins); the model's own date resolution (resolveDates) is tied to the code by the correspondence "
+             "run, its equality with the C09 span model is not proved; cells are Option Num (finite rational | +inf | -inf): only NaN is missing, IEEE corner cases "
              "of the operators are modelled; op_refines_map collects the equation of every op kind; a minimal heap model "
              "(one buffer class per pool slot) proves by induction over op sequences that no two pool objects ever share a buffer "
              "(functional forms, copy and underlay fill their target with a fresh buffer, in-place ops touch only the receiver), tied "
@@ -60,8 +63,9 @@ ASSUMPTIONS = [
     "numpy fancy assignment with repeated positions keeps the last value (observed, modelled as such)",
     "comparison operators are observed as 0/1 series; dtype promotion of boolean data is not modelled (results are not fed back)",
     "a write that raises ends the op sequence: the partially mutated state it may leave is not modelled",
-    "infinite values: operators, comparisons, tests, neighbour fills and all structural ops are driven on them; statistics, moving "
-    "windows, linear fill and extrapolate are generated on finite data only (numpy summation order / lfilter state with infinities)",
+    "infinite values: operators, comparisons, tests, fills, statistics, moving windows and all structural ops are driven on them (with an "
+    "infinite operand the IEEE result of a sum or product does not depend on the order of the operations); extrapolate is generated on "
+    "finite data only (lfilter state with infinities)",
     "reads and writes are driven through every public spelling (set_data/get_data positional and keyword, bracket syntax, call syntax)",
     "class T: after mean/nanmean/mov_avg/linear-fill ops values are compared with tolerance 1e-9*max(1,|x|), structure exactly; "
     "the generator lets such inexact values flow only through structural operations",
@@ -749,6 +753,8 @@ def oracle_step(oracle, reps, ws):
                 r = min(obs)
             else:
                 r = max(obs)
+            if r != r:
+                continue                                 # inf - inf, 0 * inf: NaN
             m[(t, 0)] = r
         put(k, m, 1)
     elif op in ("mov", "mmov"):
@@ -773,6 +779,8 @@ def oracle_step(oracle, reps, ws):
                     r = sum(win, Fraction(0))
                     if f == "avg":
                         r = r / wl
+                if r != r:
+                    continue
                 m[(t, v)] = r
         put(k, m, src["nv"])
     elif op in ("fill", "mfill"):
@@ -818,6 +826,8 @@ def oracle_step(oracle, reps, ws):
                         ip, it, inx = serials.index(prev), serials.index(t), serials.index(nxt)
                         a, b = src["m"][(prev, v)], src["m"][(nxt, v)]
                         val = a + (b - a) * Fraction(it - ip, inx - ip)
+                        if val != val:
+                            val = None                   # inf - inf
                     elif prev is not None:
                         val = src["m"][(prev, v)]
                     elif nxt is not None:
@@ -1246,7 +1256,7 @@ def tiny_enough(x, count) -> bool:
     if count > 3 or x.data.dtype != np.float64:
         return False
     for v in x.data.ravel():
-        if v != v:
+        if v != v or v in (INF, -INF):
             continue
         n, den = float(v).as_integer_ratio()
         if abs(n) >= (1 << 8) or den > (1 << 8):
@@ -1285,7 +1295,7 @@ def gen_op(rng, pool, f, malformed):
             if a == b or a == 1 or b == 1:
                 break
             j = rng.randint(0, n - 1)
-    if (name in ("stat", "mov") and not small_enough(x)) or (name == "rw" and not small_enough(x, True)):
+    if name in ("stat", "mov", "rw") and not small_enough(x, True):
         return f"copy {k} {i}"                         # inexact values (after a class-T op) only flow through structural ops
     if name == "stat":
         nv = x.data.shape[1]
@@ -1311,7 +1321,7 @@ def gen_op(rng, pool, f, malformed):
         return f"mov {k} {fn} {i} {w}" if rng.chance(0.75) else f"mmov {i} {fn} {w}"
     if name == "fillop":
         method = rng.choice(FILLS)
-        if method == "linear" and not small_enough(x):
+        if method == "linear" and not small_enough(x, True):
             method = "previous"
         arg = gen_cell(rng, 0.1) if method == "constant" else "-"
         kind = rng.weighted([("all", 5), ("span", 4), ("list", 0.5)])
@@ -1509,6 +1519,10 @@ def directed_lines(ctx: Ctx):
                      f" | un 2 neg 0 | un 2 abs 0 | cmp lt 0 0 | cmp ge 0 1 | cmp ne 0 1 | bin 2 mul 0 1 | bin 2 add 1 0")
         lines.append(f"{h} | copy 2 0 | rw 2 gt 1 nan | copy 2 0 | rw 2 lt 1 inf | copy 2 0 | rw 2 isnan 0 -inf | copy 2 0 | rw 2 eq 1 inf"
                      f" | fill 2 0 next - all | fill 2 0 previous - sp=Q8078,Q8086,1 | fill 2 0 constant inf sp=Q8078,Q8086,1 | shift 0 3 | fshift 2 0 soy")
+    for h in inf_heads:
+        for fn in STATS:
+            lines.append(f"{h} | stat 2 {fn} 0 | hstack 2 0 0 | stat 2 {fn} 2")
+        lines.append(f"{h} | mov 2 sum 0 -2 | mov 2 avg 0 -2 | mov 2 prod 0 -2 | mov 2 sum 0 -3 | fill 2 0 linear - sp=Q8078,Q8086,1 | fill 2 0 nearest - all")
     # every public spelling of a read and of a write, for variant 0 and for the others, on a series with three different variants
     h3 = "3 | init 0 Q 8080 3 1,2,3:4,5,6:7,8,9"
     for d_ in ("l=Q8081", "l=Q8082,Q8080", "sp=Q8080,Q8082,2", "sp=Q8081,-,1", "all"):
